@@ -185,6 +185,45 @@ async fn compare_counts(view: &str, backend: &str, account: &LocalAccount, model
     }
 }
 
+/// C17 at account level: the files named by replaying the file event log (`canonical_files`) are exactly the external
+/// files of the live file secrets of the model — none missing, none left behind for a deleted secret or folder
+async fn compare_file_log(view: &str, backend: &str, account: &LocalAccount, model: &Model, trace: &Vec<String>, case: usize) {
+    use sos_sync::StorageEventLogs;
+    let canonical = account.canonical_files().await.unwrap();
+    let mut got: Vec<(VaultId, uuid::Uuid, String)> = canonical.iter().map(|f| (*f.vault_id(), *f.secret_id(), f.file_name().to_string())).collect();
+    got.sort();
+    let mut want: Vec<(VaultId, uuid::Uuid, String)> = vec![];
+    for (fid, (_, secrets)) in model.iter() {
+        for (id, (_, _, files)) in secrets.iter() {
+            if files.is_empty() { continue; }
+            let (row, _) = account.read_secret(id, Some(fid)).await.unwrap();
+            for cs in external_checksums(row.secret()) { want.push((*fid, *id, sos_core::ExternalFileName::from(cs).to_string())); }
+        }
+    }
+    want.sort();
+    if got != want {
+        fail("file-log-replay-differs-from-live-file-secrets", format!("\"backend\":\"{}\",\"view\":\"{}\",\"case\":{},\"trace\":{:?},\"files_named_by_log\":{},\"files_of_live_secrets\":{}", backend, view, case, trace, got.len(), want.len()));
+    }
+}
+
+/// C16 at account level: the integrity report of the account (all listed folders, `concurrency` scans in parallel)
+/// — returns the failures it contains
+async fn integrity_failures(target: &BackendTarget, account_id: &sos_core::AccountId, account: &LocalAccount, concurrency: usize) -> Vec<String> {
+    use sos_integrity::{account_integrity, FolderIntegrityEvent};
+    let folders = account.list_folders().await.unwrap();
+    let (mut rx, _cancel) = account_integrity(target, account_id, folders, concurrency.max(1)).await.unwrap();
+    let mut failures = vec![];
+    loop {
+        match tokio::time::timeout(std::time::Duration::from_secs(20), rx.recv()).await {
+            Ok(Some(FolderIntegrityEvent::Failure(id, reason))) => failures.push(format!("{}: {:?}", id, reason).replace('"', "'")),
+            Ok(Some(FolderIntegrityEvent::Complete)) | Ok(None) => break,
+            Ok(Some(_)) => {}
+            Err(_) => { failures.push("REPORT-DID-NOT-COMPLETE within 20 s".to_string()); break; }
+        }
+    }
+    failures
+}
+
 async fn read_entries(path: &Path) -> Vec<(String, Vec<u8>)> {
     let buffer = std::fs::read(path).unwrap();
     let mut reader = ZipReader::new(Cursor::new(buffer)).await.unwrap();
@@ -263,7 +302,11 @@ pub async fn run(cases: usize, seed: u64) {
             if case % 4 == 2 {
                 // every fourth history holds one file secret (half of them with an attachment) in the default folder;
                 // file encryption uses a deliberately slow passphrase KDF, so there is at most one per history
-                let fid = *default_folder.id();
+                // (in a folder of its own, so that the random folder operations may rename or DELETE the folder that holds it)
+                let fname = format!("files-{}", r.below(100000));
+                let ff = account.create_folder(NewFolderOptions::new(fname.clone())).await.unwrap().folder;
+                let fid = *ff.id();
+                model.insert(fid, (fname, BTreeMap::new()));
                 let (m, s, l, files) = file_secret(&mut r, &sandbox_dir.join("inputs"));
                 let nfiles = files.len();
                 let id = account.create_secret(m, s, AccessOptions { folder: Some(fid), ..Default::default() }).await.unwrap().id;
@@ -409,6 +452,7 @@ pub async fn run(cases: usize, seed: u64) {
             compare("live", backend, &account, &model, &trace, case).await;
             compare_index("live", backend, &account, &model, &trace, case).await;
             compare_counts("live", backend, &account, &model, &archive_id, &trace, case).await;
+            compare_file_log("live", backend, &account, &model, &trace, case).await;
             if std::env::var("SOS_ACCT_SELFTEST").is_ok() {
                 // oracle self-test: with one label of the model changed the index comparison MUST report a difference
                 let mut wrong = model.clone();
@@ -499,6 +543,14 @@ pub async fn run(cases: usize, seed: u64) {
             account.initialize_search_index().await.unwrap();
             compare_index("rebuilt after sign-in", backend, &account, &model, &trace, case).await;
             compare_counts("rebuilt after sign-in", backend, &account, &model, &archive_id, &trace, case).await;
+            // C16: nothing was tampered with: the integrity report of the account must be clean for this history
+            // (scans of all folders in parallel)
+            let nfolders = account.list_folders().await.unwrap().len();
+            let acct_target = account.backend_target().await;
+            let fails = integrity_failures(&acct_target, &account_id, &account, nfolders).await;
+            if !fails.is_empty() {
+                fail("integrity-report-flags-untampered-account", format!("\"backend\":\"{}\",\"case\":{},\"trace\":{:?},\"failures\":{:?}", backend, case, trace, fails));
+            }
 
             let status_before = { use sos_sync::SyncStorage; account.sync_status().await.unwrap() };
             // ---- C18: export, import into empty storage ---------------------------------------------
